@@ -3,7 +3,7 @@
    changes its own record or clears the flag; it never lists itself again. *)
 From Coq Require Import List NArith ZArith Bool Lia.
 Import ListNotations.
-From VF Require Import Base Core Core_lemmas Core_inv Core_props Cluster Exchange Heal_proofs Below_proofs.
+From VF Require Import Base Core Core_lemmas Core_inv Core_props Cluster Exchange Heal_proofs Below_proofs Below_cluster.
 Local Open Scope Z_scope.
 
 Section Leave.
@@ -350,3 +350,15 @@ Proof.
 Qed.
 
 End Leave.
+
+(* a decidable version of [run_ok] for examples *)
+Fixpoint run_okb (c : cfg) (s : nstate) (ops : list op) : bool :=
+  match ops with
+  | [] => true
+  | o :: ops' => Below_cluster.op_okb c s o && run_okb c (fst (step c s o)) ops'
+  end.
+Lemma run_okb_ok c : forall ops s, run_okb c s ops = true -> run_ok c s ops.
+Proof.
+  induction ops as [|o ops IH]; intros s H; cbn [run_okb run_ok] in *; [exact I|].
+  apply andb_true_iff in H. destruct H as [H1 H2]. split; [apply Below_cluster.op_okb_ok; exact H1 | apply IH; exact H2].
+Qed.
